@@ -150,6 +150,18 @@ example : sessionState c19Cfg c19Tasks =
     leafVals, envLoad, lookupEnv, envVarOf, joinUnderscore, upperKey, Except.map,
     applyEdits, journalOf, Edit.toJournal, jOf, setPath, erasePath, markDel, subDict, erase]
 
+/-- One collection OBJECT mounted under two namespace paths (`shared` below the root and below `a`): the
+    model takes the path of the NAME USED as input, so nothing new is needed - the same task gets
+    `a`'s settings through `a.shared.…` and none of them through `shared.…`. -/
+example :
+    let root : KVs := []
+    let a : KVs := [(['w'], .leaf (.s ['a'])), (['o'], .leaf (.b true))]
+    let shared : KVs := [(['w'], .leaf (.s ['s']))]
+    collectionLevel false [root, a, shared] = .ok [(['w'], .leaf (.s ['a'])), (['o'], .leaf (.b true))] ∧
+    collectionLevel false [root, shared] = .ok [(['w'], .leaf (.s ['s']))] := by
+  refine ⟨?_, ?_⟩ <;>
+  simp [collectionLevel, nsConfig, mergeKVs_cons, mergeStep, Inv.insert, lookup]
+
 example : JValid ⟨[], []⟩ (c19Tasks.flatMap TaskRun.body) := by
   refine ⟨by simp, trivial, rfl, rfl, by simp, trivial⟩
 
